@@ -279,6 +279,73 @@ theorem signedTail (prof : Profile) (P : Nat) (N y : Int) (neg : Prop) [Decidabl
       subst hN
       rw [fp1, fp2]; rfl
 
+/-- the sign-fixing tail of `i128_shifted_div_mod_floor` for a negative divisor (after the D13 repair this branch is live): with
+    `M = -N` and `Y = -y > 0` the result is the floor quotient `M / Y = N / y` and the remainder `-(M % Y)`, which has the sign of `y` -/
+theorem signedTailNeg (prof : Profile) (P : Nat) (N y : Int) (neg : Prop) [Decidable neg]
+    (hy : I128_MIN < y ∧ y < 0) (qh ql r : Nat)
+    (hQ : qh * U128_MOD + ql = P / y.natAbs) (hR : r = P % y.natAbs) (hql : ql < U128_MOD)
+    (hN : N = if neg then -(P : Int) else (P : Int)) :
+    (if qh ≠ 0 ∨ (ql : Int) > I128_MAX then (pure none : Outcome (Option (Int × Int)))
+      else
+        if neg then do
+          let r ← negI128 prof (IntTy.i128.cast (r : Int))
+          pure (some ((ql : Int), r))
+        else
+          if IntTy.i128.cast (r : Int) = 0 then do
+            let q ← negI128 prof (ql : Int)
+            pure (some (q, IntTy.i128.cast (r : Int)))
+          else do
+            let q ← negI128 prof (ql : Int)
+            let q ← plainI128 prof (q - 1)
+            let r ← plainI128 prof (IntTy.i128.cast (r : Int) + y)
+            pure (some (q, r))) =
+      Outcome.ok (if P / y.natAbs ≤ I128_MAX.toNat then some ((-N) / (-y), -((-N) % (-y))) else none) := by
+  obtain ⟨hyM, hy0⟩ := hy
+  have hY0 : 0 < -y := by omega
+  obtain ⟨⟨fp1, fp2⟩, fn0, fn1⟩ := floorOfAbs P (-y) hY0
+  have hnab : (-y).natAbs = y.natAbs := Int.natAbs_neg y
+  rw [hnab] at fp1 fp2 fn0 fn1
+  have hyn0 : 0 < y.natAbs := by omega
+  have hrl := Nat.mod_lt P hyn0
+  rw [← hR] at fp2 fn0 fn1 hrl
+  unfold I128_MIN at hyM
+  have hcast : IntTy.i128.cast (r : Int) = (r : Int) :=
+    cast_i128_id (by unfold I128_MIN; omega) (by unfold I128_MAX; omega)
+  rw [hcast]
+  generalize P / y.natAbs = Q at *
+  have hMAX : I128_MAX.toNat = 170141183460469231731687303715884105727 := by decide
+  rw [hMAX]
+  by_cases hc : qh ≠ 0 ∨ (ql : Int) > I128_MAX
+  · have : ¬ Q ≤ 170141183460469231731687303715884105727 := by
+      unfold I128_MAX at hc; unfold U128_MOD at hQ hql; omega
+    rw [if_pos hc, if_neg this]; rfl
+  · have hQle : Q ≤ 170141183460469231731687303715884105727 := by
+      unfold I128_MAX at hc; unfold U128_MOD at hQ hql; omega
+    have hqQ : ql = Q := by unfold I128_MAX at hc; unfold U128_MOD at hQ hql; omega
+    rw [if_neg hc, if_pos hQle]
+    subst hqQ
+    by_cases hneg : neg
+    · rw [if_pos hneg] at hN ⊢
+      subst hN
+      have f1 : fitsI128 (-(r : Int)) = true := by rw [fitsI128_iff]; unfold I128_MIN I128_MAX; omega
+      rw [negI128, plainI128_ok prof f1, Outcome.bind_ok, Outcome.pure_eq, Int.neg_neg, fp1, fp2]
+    · rw [if_neg hneg] at hN ⊢
+      subst hN
+      have f1 : fitsI128 (-(ql : Int)) = true := by rw [fitsI128_iff]; unfold I128_MIN I128_MAX; omega
+      have f2 : fitsI128 (-(ql : Int) - 1) = true := by rw [fitsI128_iff]; unfold I128_MIN I128_MAX; omega
+      have f3 : fitsI128 ((r : Int) + y) = true := by rw [fitsI128_iff]; unfold I128_MIN I128_MAX; omega
+      by_cases hr0 : (r : Int) = 0
+      · have hr0' : r = 0 := by omega
+        obtain ⟨a, b⟩ := fn0 hr0'
+        rw [if_pos hr0, negI128, plainI128_ok prof f1, Outcome.bind_ok, Outcome.pure_eq, a, b, hr0]
+        rfl
+      · have hr0' : r ≠ 0 := by omega
+        obtain ⟨a, b⟩ := fn1 hr0'
+        rw [if_neg hr0, negI128, plainI128_ok prof f1, Outcome.bind_ok, plainI128_ok prof f2, Outcome.bind_ok,
+          plainI128_ok prof f3, Outcome.bind_ok, Outcome.pure_eq, a, b]
+        have e : (r : Int) + y = -(-y - (r : Int)) := by omega
+        rw [e]
+
 /-- `i256_div_mod_floor(x1, x2, y)` for `y > 0`: floor quotient and remainder of the exact product,
     `None` exactly when the truncated quotient magnitude exceeds `i128::MAX` -/
 theorem i256DivModFloor_spec (prof : Profile) (x1 x2 y : Int)
@@ -341,6 +408,45 @@ theorem i128ShiftedDivModFloor_spec (prof : Profile) (x : Int) (p : Nat) (y : In
     rw [Int.natAbs_mul, Int.natAbs_pow]; rfl
   rw [hab]
   refine signedTail prof (x.natAbs * 10 ^ p) (x * 10 ^ p) y _ hy qh ql r hQ hR hql ?_
+  have n1 : (x < 0 ∧ (x.natAbs : Int) = -x) ∨ (¬ x < 0 ∧ (x.natAbs : Int) = x) := by omega
+  simp only [Int.natCast_mul, Int.natCast_pow, Nat.cast_ofNat]
+  rcases n1 with ⟨a1, n1⟩ | ⟨a1, n1⟩
+  · rw [if_pos a1, n1, Int.neg_mul, Int.neg_neg]
+  · rw [if_neg a1, n1]
+
+/-- `i128_shifted_div_mod_floor(x, p, y)` for `y < 0` (the branch the D13 repair made live): the floor quotient of
+    `x·10^p / y = (-(x·10^p)) / (-y)` and a remainder with the sign of `y` -/
+theorem i128ShiftedDivModFloor_spec_neg (prof : Profile) (x : Int) (p : Nat) (y : Int)
+    (h1 : I128_MIN < x ∧ x ≤ I128_MAX) (hp : p ≤ 38) (hy : I128_MIN < y ∧ y < 0) :
+    i128ShiftedDivModFloor prof x p y =
+      .ok (if ((x * 10 ^ p).natAbs / y.natAbs : Nat) ≤ I128_MAX.toNat
+        then some ((-(x * 10 ^ p)) / (-y), -((-(x * 10 ^ p)) % (-y))) else none) := by
+  unfold I128_MIN I128_MAX at h1
+  have hyM := hy.1
+  unfold I128_MIN at hyM
+  have hpow : (10 : Nat) ^ p ≤ 10 ^ 38 := Nat.pow_le_pow_right (by decide) hp
+  have hpowI : ((10 : Int) ^ p) = (((10 : Nat) ^ p : Nat) : Int) := by push_cast; rfl
+  have hcast : (IntTy.u128.cast ((10 : Int) ^ p)).toNat = 10 ^ p := by
+    rw [hpowI, cast_u128_nonneg (Int.natCast_nonneg _)
+      (by unfold I128_MAX; generalize (10 : Nat) ^ p = T at hpow; omega)]; rfl
+  have hx1 : x.natAbs < U128_MOD := by unfold U128_MOD; omega
+  have hx2 : (10 : Nat) ^ p < U128_MOD := by unfold U128_MOD; omega
+  have hyn0 : 0 < y.natAbs := by omega
+  have hyn : y.natAbs < U128_MOD := by unfold U128_MOD; omega
+  obtain ⟨rh, rl, hmul, hP, hrh, hrl⟩ := u128MulU128_spec prof x.natAbs (10 ^ p) hx1 hx2
+  obtain ⟨qh, ql, r, hdiv, hQ, hR, hqh, hql⟩ := u256IdivU128_spec prof rh rl y.natAbs hrh hrl hyn0 hyn
+  unfold i128ShiftedDivModFloor
+  rw [tenPow_ok p hp, Outcome.bind_ok, hcast, hmul, Outcome.bind_ok]
+  dsimp only
+  rw [hdiv, Outcome.bind_ok]
+  dsimp only
+  rw [hP] at hQ hR
+  have hny : y < 0 := hy.2
+  simp only [hny, if_true]
+  have hab : (x * 10 ^ p).natAbs = x.natAbs * 10 ^ p := by
+    rw [Int.natAbs_mul, Int.natAbs_pow]; rfl
+  rw [hab]
+  refine signedTailNeg prof (x.natAbs * 10 ^ p) (x * 10 ^ p) y _ hy qh ql r hQ hR hql ?_
   have n1 : (x < 0 ∧ (x.natAbs : Int) = -x) ∨ (¬ x < 0 ∧ (x.natAbs : Int) = x) := by omega
   simp only [Int.natCast_mul, Int.natCast_pow, Nat.cast_ofNat]
   rcases n1 with ⟨a1, n1⟩ | ⟨a1, n1⟩
